@@ -300,8 +300,18 @@ class Check:
         if out.strip():
             ok = False
             err += "forbidden construct: " + out[:500]
+        chk_out = None
+        if ok and self.tier == "thorough":
+            # the independent checker over the property file(s) and everything they depend on
+            mods = [f[:-2] for f in files]
+            rc, out = sh(["timeout", "3000", "coqchk", "-silent", "-o"] + QARGS + mods, cwd=COQ, timeout=3100)
+            flat = " ".join(out.split())
+            chk_out = {"exit": rc, "axioms_none": "* Axioms: <none>" in flat, "summary": flat[-600:]}
+            if rc != 0 or "* Axioms: <none>" not in flat:
+                ok = False
+                err += "coqchk: " + flat[-1500:]
         self.proof = {"obligations": len(thms), "discharged": len(thms) if ok else 0, "theorems": thms,
-                      "assumptions": assum, "ok": ok, "error": err}
+                      "assumptions": assum, "ok": ok, "error": err, "coqchk": chk_out}
         if not ok:
             self.broken.append("proof:" + ",".join(files))
         return ok
@@ -456,6 +466,7 @@ class Check:
                     "tie: harness/cmd/implrun (Go), driver/*.py (generators, comparison)"],
                 "theorems": self.proof["theorems"],
                 "print_assumptions": self.proof["assumptions"],
+                "coqchk": self.proof.get("coqchk"),
                 "evaluations": max(1, self.evaluations),
                 "distinct_nontrivial": distinct,
                 "rule": self.extra.pop("rule", "cases generated from one seeded PRNG per stream (see streams); a case counts as "
